@@ -1,6 +1,11 @@
-(* C20, part 4: KNOWN REACHABLE PANICS.  Concrete small states of the node model on
-   which a library call returns [Panic site] although the caller follows the
-   Ready/advance contract and every message is one a library peer can produce.
+(* C20, part 4: KNOWN REACHABLE PANICS and REGRESSION GUARDS.  Concrete small states of the
+   node model on which a library call returns [Panic site] although the caller follows the
+   Ready/advance contract and every message is one a library peer can produce
+   ((i) term-0 pre-vote reject, (iii) unpersisted tail, (vi) campaign on a removed node:
+   OPEN).  (ii) self-removed leader, (iv) apply-limit overflow and (v) non-contiguous
+   batching were fixed in /repo (e9967b2, 63caa76, cc6f146) while this file was written:
+   their witnesses are now guards stating that the same calls in the same states return
+   Ok, plus the general theorems behind the fixes.
    Each witness is checked by computation ([vm_compute]); where it is cheap the
    offending state is itself PRODUCED by model API calls from an ordinary state, so
    that the witness is a schedule and not only a state.  These theorems are used to
